@@ -42,7 +42,8 @@ def adversarial_run(chk, rng):
     nsend = rng.randrange(0, 3)
     for _ in range(nsend):
         runner.apply(('send', victim, TS.bounded_data(rng, seg)))
-        if rng.random() < 0.5:
+        for _ in range(rng.randrange(0, 4)):
+            # start the transfer and put some (not all) of its segments out
             runner.apply(('pq', victim))
     if phase == 'terminating':
         runner.apply(('term', victim, 0))
@@ -56,7 +57,11 @@ def adversarial_run(chk, rng):
     for _ in range(rng.randrange(1, 8)):
         if runner.is_closed(victim):
             break
-        frame = TS.well_formed_frame(rng)
+        (hint_ids, hint_lens) = TS.victim_hints(runner, victim)
+        if rng.random() < 0.7:
+            frame = TS.well_formed_frame(rng, ids=hint_ids, lengths=hint_lens)
+        else:
+            frame = TS.well_formed_frame(rng)
         mid = frame[0]
         in_sess = (hdl._state in ('established', 'ending')) or bool(hdl._in_sess)
         in_conn = bool(hdl._in_conn)
